@@ -1068,3 +1068,17 @@ package keeper
 //@ ensures [validator-failure-fails] $AllocateTokensToConsumerValidators.called && $AllocateTokensToConsumerValidators.ret != nil ==> result1 != nil
 //@ precall AllocateTokensToConsumerValidators [funds-moved-to-distribution-first] E == elog(old(E), eff_BankKeeper_SendCoinsFromModuleToModule(types.ConsumerRewardsPool, distrtypes.ModuleName, validatorsRewardsTrunc)) && $AllocateTokensToConsumerValidators.tokens == sdk.NewDecCoinsFromCoins(validatorsRewardsTrunc)
 //@ ensures [module-store-untouched] S == old(S)
+
+// ---------------------------------------------------------------- C20: cancelling a pending infraction-parameter change
+
+//@ func Keeper.GetConsumerInfractionUpdateTime
+//@ writes types.InfractionScheduledTimeToConsumerIdsKeyPrefix()
+//@ ensures [no-deps] E == old(E) && X == old(X)
+
+//@ func Keeper.RemoveConsumerInfractionQueuedData
+//@ ensures [nothing-queued-nothing-done] !old(k.HasQueuedInfractionParameters(ctx, consumerId)) ==> S == old(S)
+//@ ensures [queued-parameters-gone] !k.HasQueuedInfractionParameters(ctx, consumerId)
+//@ ensures [schedule-entry-looked-up-and-removed] old(k.HasQueuedInfractionParameters(ctx, consumerId)) ==> $GetConsumerInfractionUpdateTime.called && $GetConsumerInfractionUpdateTime.consumerId == consumerId
+//@ ensures [only-this-consumers-pending-change] forall key bytes :: key != types.ConsumerIdToQueuedInfractionParametersKey(consumerId) && fam(key) != types.InfractionScheduledTimeToConsumerIdsKeyPrefix() ==> S[key] == old(S[key])
+//@ ensures [parameters-in-force-kept] k.GetInfractionParameters(ctx, consumerId) == old(k.GetInfractionParameters(ctx, consumerId))
+//@ ensures [no-deps] E == old(E) && X == old(X)
